@@ -35,11 +35,68 @@ pub(crate) fn decode(
     reference: &[u8],
     data: &[u8],
 ) -> Result<Vec<Vec<u8>>, Box<dyn std::error::Error + Send + Sync>> {
+    // `bitfield_rle::decode` trusts its input: a truncated varint or literal run makes it index out
+    // of bounds, and a large run length makes it allocate that much memory. `data` comes straight
+    // from the network, so check the stream before handing it over.
+    check_rle_stream(data)?;
+
     // decode the RLE encoding first
     let buf = bitfield_rle::decode(data)?;
 
     // decode the delta-encoding
     delta_decode(reference, &buf)
+}
+
+/// Upper bound for the decoded size of one input packet: a packet carries at most the pending
+/// output window of a peer (128 frames, plus one for slack), and every frame's bytes are at most
+/// `u16::MAX` long plus the two bytes of their length prefix.
+const MAX_DECODED_LEN: usize = 129 * (u16::MAX as usize + 2);
+
+/// Walks the run-length encoded `data` without decoding it. Returns the decoded length, or an
+/// error if a varint or a literal run is cut short, a varint does not fit into 63 bits, or the
+/// decoded length would exceed [`MAX_DECODED_LEN`].
+fn check_rle_stream(data: &[u8]) -> Result<usize, &'static str> {
+    let mut offset: usize = 0;
+    let mut total: usize = 0;
+
+    while offset < data.len() {
+        // read one varint: 7 bits per byte, least significant group first
+        let mut value: u64 = 0;
+        let mut shift: u32 = 0;
+        loop {
+            if offset >= data.len() {
+                return Err("truncated varint in RLE stream");
+            }
+            if shift > 56 {
+                return Err("oversized varint in RLE stream");
+            }
+            let byte = data[offset];
+            offset += 1;
+            value |= ((byte & 127) as u64) << shift;
+            shift += 7;
+            if byte & 128 == 0 {
+                break;
+            }
+        }
+
+        // bit 0 set: a run of `value >> 2` repeated bytes; otherwise `value >> 1` literal bytes follow
+        let repeat = value & 1 == 1;
+        let run = if repeat { value >> 2 } else { value >> 1 };
+        if run > (MAX_DECODED_LEN - total) as u64 {
+            return Err("RLE stream decodes to more than an input packet can hold");
+        }
+        let run = run as usize;
+        total += run;
+
+        if !repeat {
+            if run > data.len() - offset {
+                return Err("truncated literal run in RLE stream");
+            }
+            offset += run;
+        }
+    }
+
+    Ok(total)
 }
 
 fn delta_decode(
